@@ -1,6 +1,8 @@
 //! Exercises the logos runtime library directly (no model here; the model runs in Lean):
 //!   READ <hexsrc> <off> <size>            Source::read::<&[u8; size]> (size 0 = u8) on str and [u8]
 //!   BUMP <s|b> <hexsrc> <nexts> <n>       n decimal; run `nexts` calls of next(), then bump(n) under catch_unwind
+//!   CBUMP <s|b> <hexsrc> <nexts> <n>      `nexts` calls of next() whose callbacks bump(0), then one call of next() under catch_unwind
+//!                                         whose callback calls bump(n); the definitions have a skip, so the call may pass trivia first
 //!   SRC  <hexsrc>                         every Source method on Deref wrappers (String, Box<str>, &str, Vec<u8>, Box<[u8]>, &[u8])
 //!                                         against the base impls (str, [u8]) at every index 0..=len+2
 //!   API  <hexsrc> <partial 0|1> <ops..>   history of Lexer API calls on a pool of lexers of two token types (str source)
@@ -62,6 +64,101 @@ pub enum TokC {
     #[token(" ")]
     Sp,
 }
+
+#[derive(Default, Clone, Debug, PartialEq)]
+pub struct Ex {
+    n: usize,
+    seen_start: usize,
+    seen_end: usize,
+    called: u32,
+}
+
+fn cb_bump_s(lex: &mut Lexer<TokE>) {
+    lex.extras.seen_start = lex.span().start;
+    lex.extras.seen_end = lex.span().end;
+    lex.extras.called += 1;
+    let n = lex.extras.n;
+    lex.bump(n);
+}
+
+fn cb_bump_b(lex: &mut Lexer<TokF>) {
+    lex.extras.seen_start = lex.span().start;
+    lex.extras.seen_end = lex.span().end;
+    lex.extras.called += 1;
+    let n = lex.extras.n;
+    lex.bump(n);
+}
+
+#[derive(Logos, Debug, PartialEq, Clone)]
+#[logos(extras = Ex)]
+#[logos(skip " +")]
+#[logos(skip "/[*][^*]*[*]/")]
+pub enum TokE {
+    #[regex("[a-z]+", cb_bump_s)]
+    Word,
+    #[token("=", cb_bump_s)]
+    Eq,
+    #[token("é", cb_bump_s)]
+    E,
+    #[regex("[0-9]+")]
+    Num,
+}
+
+#[derive(Logos, Debug, PartialEq, Clone)]
+#[logos(utf8 = false)]
+#[logos(extras = Ex)]
+#[logos(skip " +")]
+pub enum TokF {
+    #[regex("[a-z]+", cb_bump_b)]
+    Word,
+    #[token("=", cb_bump_b)]
+    Eq,
+    #[regex(b"[\x80-\xff]", cb_bump_b)]
+    High,
+    #[regex("[0-9]+")]
+    Num,
+}
+
+macro_rules! cbump_impl {
+    ($fname:ident, $tok:ty, $src:ty, $isb:expr, $tohex:expr) => {
+        fn $fname(src: &$src, nexts: usize, n: usize) -> String {
+            let mut lex = <$tok>::lexer(src);
+            for _ in 0..nexts {
+                lex.next();
+            }
+            let before = lex.extras.called;
+            lex.extras.n = n;
+            let r = catch_unwind(AssertUnwindSafe(|| lex.next().is_some()));
+            if lex.extras.called == before {
+                return "NOCALL".into();
+            }
+            let sp = lex.span();
+            let isb: fn(&$src, usize) -> bool = $isb;
+            let valid = sp.start <= sp.end && sp.end <= src.len() && isb(src, sp.start) && isb(src, sp.end);
+            let mut out = format!(
+                "pre:{}-{} {} {} {}",
+                lex.extras.seen_start,
+                lex.extras.seen_end,
+                if r.is_ok() { "ok" } else { "panic" },
+                sp.start,
+                sp.end
+            );
+            if valid {
+                let tohex: fn(&$src) -> String = $tohex;
+                let sl = catch_unwind(AssertUnwindSafe(|| (tohex(lex.slice()), tohex(lex.remainder()))));
+                match sl {
+                    Ok((a, b)) => out.push_str(&format!(" {} {}", a, b)),
+                    Err(_) => out.push_str(" SLICEPANIC"),
+                }
+            } else {
+                out.push_str(" INVALIDSPAN");
+            }
+            out
+        }
+    };
+}
+cbump_impl!(do_cbump_str, TokE, str, |s, i| s.is_char_boundary(i), |x| hex(x.as_bytes()));
+cbump_impl!(do_cbump_bytes, TokF, [u8], |s, i| i <= s.len(), |x| hex(x));
 
 fn unhex(s: &str) -> Vec<u8> {
     if s == "-" {
@@ -358,6 +455,19 @@ fn main() {
                     }
                 } else {
                     do_bump_bytes(&src, nexts, n)
+                }
+            }
+            "CBUMP" => {
+                let src = unhex(t[2]);
+                let nexts: usize = t[3].parse().unwrap();
+                let n: usize = t[4].parse().unwrap();
+                if t[1] == "s" {
+                    match std::str::from_utf8(&src) {
+                        Ok(s) => do_cbump_str(s, nexts, n),
+                        Err(_) => "NOTUTF8".into(),
+                    }
+                } else {
+                    do_cbump_bytes(&src, nexts, n)
                 }
             }
             "API" => {
